@@ -111,8 +111,11 @@ def run_dilation(seed, tape, opts):
     late_relay = tape.choose(4, "late_relay") == 0
     if late_relay:
         return run_late_relay(seed, tape, w, a, b, code)
-    a.script = [("set_code", code), ("dilate", {})]
-    b.script = [("set_code", code), ("dilate", {})]
+    # one side may not listen at all: then the only way to connect (and to
+    # reconnect) is through the hints the other side produces
+    nl = tape.pick((None, None, "A", "B"), "no_listen")
+    a.script = [("set_code", code), ("dilate", {"no_listen": nl == "A"})]
+    b.script = [("set_code", code), ("dilate", {"no_listen": nl == "B"})]
     bogus = ("10.9.9.7", 4242)
     sim.net.host_mode["10.9.9.7"] = "refuse"
     lists = [json.loads(json.dumps(hintgen.gen_hint_list(tape, [], bogus)))
